@@ -12,4 +12,8 @@ def run(tier, seed):
         "C12/smt", tier)
     from pyvc import fx_obligations
     res.add(fx_obligations.c12_fx(tier))
+    # results of different calls are independent: every node a parse method returns is built by that invocation (not a
+    # module-level / class-level object, not a node handed out before)
+    from props import gxcommon as G
+    res.add(G.gx(None, ["fresh"], "C12/gx", tier))
     return res
